@@ -217,6 +217,11 @@ class Engine(ExprMixin, StmtMixin, CallMixin, PrimMixin, NumpyMixin):
             for s2, v in self.instantiate(st.fork(), ty[4:-1], name, fresh):
                 s2.path.append(name + "!=None")
                 yield s2, v
+        elif ty == "sarr":
+            # array of strings / bytes: elements are only compared, so they are modelled as ordered integers carrying the tag "str"
+            r = self.fresh_arr(st, "int", name, fresh=fresh)
+            st.get(r).unit = "str"
+            yield st, r
         elif ty.startswith("arr[") and ty.endswith("]"):
             yield st, self.fresh_arr(st, ty[4:-1], name, fresh=fresh)
         elif ty.startswith("list[") and ty.endswith("]"):
